@@ -16,6 +16,8 @@
 package quickfix
 
 import (
+	"bytes"
+
 	"github.com/quickfixgo/quickfix/datadictionary"
 )
 
@@ -393,8 +395,16 @@ func validateField(d *datadictionary.DataDictionary,
 
 	allowedValues := d.FieldTypeByTag[int(field.tag)].Enums
 	if len(allowedValues) != 0 {
-		if _, validValue := allowedValues[string(field.value)]; !validValue {
-			return ValueIsIncorrect(field.tag)
+		values := [][]byte{field.value}
+		switch fieldType.Type {
+		case "MULTIPLESTRINGVALUE", "MULTIPLEVALUESTRING", "MULTIPLECHARVALUE":
+			// Several space separated values, each of them one of the enumeration.
+			values = bytes.Split(field.value, []byte(" "))
+		}
+		for _, value := range values {
+			if _, validValue := allowedValues[string(value)]; !validValue {
+				return ValueIsIncorrect(field.tag)
+			}
 		}
 	}
 
